@@ -91,13 +91,15 @@ def run_other(o, scratch, log):
 # =================================================================================================
 prop("C13",
      level="proof",
-     slices=["verif_budget"],
+     slices=["verif_budget", "verif_timer_block"],
      explanation="Contract of the time-budget arithmetic of uci::command_go, cut verbatim as slice verif_budget: for all "
                  "u64 clocks/increments/movetime and either side, no overflow/underflow and budget <= the mover's remaining "
                  "clock (clock mode) resp. <= movetime. Kani decides it bit-precisely for clocks <= 2^53 ms; the float term for "
                  "larger clocks is an SMT lemma. std::time::Duration arithmetic is an assumed dependency contract (stubbed by an "
                  "order-embedding), because 64-bit division circuits make the real Duration code intractable for SAT. The "
-                 "'announced within the budget' half depends on thread scheduling and on C07 and is not decided.",
+                 "timer block that enforces the budget (armed whenever a budget exists and the search is not infinite, depth limit or not) is cut "
+                 "as slice verif_timer_block and exercised by a native test with real threads (Kani cannot compile it). The 'announced within the "
+                 "budget' half beyond that depends on thread scheduling and on C07 and is not decided.",
      assumptions=[
          "Duration::from_millis is an order embedding of u64 milliseconds and Duration::saturating_sub subtracts exactly on "
          "whole-millisecond values (std contract, stubbed under Kani; the native replay uses the real std code)",
@@ -135,11 +137,12 @@ prop("C20",
      level="proof",
      explanation="Contract of Move::pgn_notation against spec::record_text for every move value of every kind (piece letter, origin "
                  "file, x iff capture, destination, =Q/R/B/N, O-O, O-O-O), fully symbolic fields; Game::get_pgn's numbering loop body as "
-                 "a slice; Piece::as_char distinct glyph per piece; the FEN writer slices decide the `Fen:` line. The board diagram loop of "
-                 "Display (64 write! calls through core::fmt) and the loop headers are glue: exercised by a native test, not machine-checked.",
+                 "a slice; Piece::as_char distinct glyph per piece; the FEN writer slices decide the `Fen:` line. The diagram cell expression of Display "
+                 "(slice verif_display_cell) shows the content of square (i, j) for every board; the write! calls through core::fmt and the two loop "
+                 "headers (rank 8 first, files a..h) are glue: exercised by a native test, not machine-checked.",
      assumptions=["String/core::fmt code of std is verified along the executed paths only (Kani's std models)",
                   "the Hash:/Fen:/PGN: lines of Display print self.hash, self.fen(), self.get_pgn() (read; C04, C11 cover those values)"],
-     not_machine_checked=["Display for Game: diagram loop (row/column order) -- native test only", "get_pgn loop header / collect() -- native test only"])
+     not_machine_checked=["Display for Game: diagram loop headers (row/column order) and the write! plumbing -- native test only", "get_pgn loop header / collect() -- native test only"])
 _F20 = ["Move::pgn_notation", "Piece::as_str_pgn"]
 for _n, _st in [("normal_pawn_quiet", "pawn push"), ("normal_pawn_capture", "pawn capture"), ("normal_piece_quiet", "piece move"),
                 ("normal_piece_capture", "piece capture")]:
@@ -459,7 +462,15 @@ ob("fen_board_end_contract", "chess::verif_chess::fen::fen_board_end_contract", 
    "slice verif_fen_board_end, all scanner end states: board field accepted iff the scanner stands at row 0, col 8", _F17, timeout=600)
 ob("pgn_step_contract", "chess::verif_chess::fen::pgn_step_contract", ["C20"],
    "slice verif_pgn_step, indices 0..=17: `<n>. ` before every White move, move text, one space", ["Game::get_pgn (loop body)"], timeout=600)
-PROPS["C20"]["slices"] = ["verif_pgn_step"]
+PROPS["C20"]["slices"] = ["verif_pgn_step", "verif_display_cell"]
+ob("display_cell_contract", "chess::verif_chess::fen::display_cell_contract", ["C20"],
+   "slice verif_display_cell, forall board, i, j in 0..8: the character handed to write! for diagram cell (i, j) is the glyph of the piece on rank i+1 / file j of this game, blank iff empty",
+   ["Display for Game (diagram cell expression)", "Game::get_position", "Piece::as_char", "Position::new_assert"], timeout=600)
+ob("push_closure_contract", "chess::verif_chess::moves::push_closure_contract", ["C01", "C15"],
+   "slice verif_push_closure (the closure handed to the generators), forall list length 0..=255 (A6's bound), forall candidate: unchecked push in range for the "
+   "buffer type of get_moves' signature, appends exactly the candidate, earlier entries untouched",
+   ["Game::get_moves (push closure)"], timeout=900)
+OB_SLICES_EXTRA = {"push_closure_contract": ["verif_push_closure"]}
 ob("gen_block", "chess::verif_chess::inst::gen_block", ["C01"],
    "slice verif_gen_block (both loop headers included) vs Piece::get_moves recorder: called exactly once for every square holding an own piece, with that piece; no other square; symbolic board",
    ["Game::get_moves (generation loops)"], timeout=600)
@@ -494,8 +505,9 @@ OB_SLICES = {
     "fen_rank_": ["verif_fen_rank"], "fen_fields_": ["verif_fen_fields"], "pgn_step_contract": ["verif_pgn_step"],
     "gen_body": ["verif_gen_body"], "gen_block": ["verif_gen_block"], "filter_body": ["verif_filter_body"], "filter_block": ["verif_filter_block"],
     "get_moves_prologue": ["verif_get_moves_prologue"], "c13_budget_": ["verif_budget"], "position_step_contract": ["verif_position_step"],
-    "autoplay_tail_respects_stack_capacity": ["verif_autoplay_tail"],
+    "autoplay_tail_respects_stack_capacity": ["verif_autoplay_tail"], "display_cell_contract": ["verif_display_cell"],
 }
+OB_SLICES.update(OB_SLICES_EXTRA)
 
 
 def slices_of(obligation_name):
@@ -555,6 +567,12 @@ ob("fen_board_loop_one_piece", "chess::verif_chess::fen::fen_board_loop_one_piec
    "slice verif_fen_board_loop (loop header included) on boards with one piece of any kind on any square: placement field == rank texts from rank 8 down to rank 1",
    _F11, tier="thorough", timeout=5400, complete=False, bounded_note="board restricted to one piece; per-rank contents are covered by fen_rank_*")
 OB_SLICES["fen_board_loop_one_piece"] = ["verif_fen_board_loop"]
+ob("native_timer_block", "uci::verif_uci::native_timer_block", ["C13"],
+   "TEST (native, real threads): slice verif_timer_block: whenever a budget exists and `infinite` is absent -- with or without a depth limit -- a timer "
+   "is armed that clears the running flag (200 ms budget: cleared within 1.7 s)",
+   ["uci::command_go (timer block, verbatim slice, concrete inputs)"], backend="native", complete=False, counts_as_proof=False,
+   bounded_note="concrete native run with real threads; Kani cannot compile this block (ICE in JoinHandle's drop glue: catch_unwind intrinsic); not a proof")
+OB_SLICES["native_timer_block"] = ["verif_timer_block"]
 ob("native_position_command", "uci::verif_uci::native_position_command", ["C17", "C12"],
    "TEST (native, concrete): whole command_position: refused FEN => error and no position left (also when one was loaded before); accepted FEN replaces it and `moves` are played on it; illegal / malformed moves are errors",
    ["uci::command_position (whole function, concrete inputs)"], backend="native", complete=False, counts_as_proof=False,
